@@ -66,16 +66,25 @@ var floors = map[string]int{
 	"false-retry-41-other-optype": 10,
 	"inflight-dup-41":             20,
 	"inflight-dup-41-uncached":    5,
+
+	// Client restart while a request of the old incarnation / client
+	// record is still being processed.
+	"create-session-delay-41":                       20,
+	"create-session-delay-retransmit-held-41":       10,
+	"create-session-delay-retransmit-after-41":      20,
+	"setclientid-confirm-delay-40":                  20,
+	"setclientid-confirm-delay-retransmit-after-40": 20,
 }
 
 func TestCheck(t *testing.T) {
 	r := ev.Start("C19")
 	defer r.Finish()
-	r.SetRule("case i = one generated client history (even i: NFSv4.0, odd i: NFSv4.1) of 14-27 state-changing requests by 1-2 clients, 2-3 open-owners / 3-7 slots, 5 file names, drawn from PRNG(VERIF_SEED, i); after each request the wrapper picks none / retransmit now / retransmit after unrelated traffic / misordered sequence (-1, +2) / same sequence with other operation, other state ID (4.0) or other operation list (4.1); OPEN, WRITE, READ may instead be held at a file-system gate with 1-3 concurrent identical retransmissions; a case is non-trivial if it hit at least one retransmission situation; distinct = distinct sequences of (operation kind, status, retransmission mode)")
+	r.SetRule("case i = one generated client history (even i: NFSv4.0, odd i: NFSv4.1) of 14-27 state-changing requests by 1-2 clients, 2-3 open-owners / 3-7 slots, 5 file names, drawn from PRNG(VERIF_SEED, i); after each request the wrapper picks none / retransmit now / retransmit after unrelated traffic / misordered sequence (-1, +2) / same sequence with other operation, other state ID (4.0) or other operation list (4.1); OPEN, WRITE, READ may instead be held at a file-system gate with 1-3 concurrent identical retransmissions; about once per case the client owner restarts (new verifier) while an OPEN of its old incarnation / client record is held at the gate: CREATE_SESSION (4.1) / SETCLIENTID_CONFIRM (4.0) is answered NFS4ERR_DELAY and is retransmitted while still delayed and after the old request finished; a case is non-trivial if it hit at least one retransmission situation; distinct = distinct sequences of (operation kind, status, retransmission mode)")
 	r.Assume("the fake directory/leaf tree stands in for the virtual file system: only calls that reach it (open, close, write, truncate, create) count as file-system side effects")
 	r.Assume("server-side open/lock state is observed through: READ (4.0) / TEST_STATEID (4.1) validity of every state ID the client was ever given, LOCKT sweeps of every file, the number of draws from the program's random number generator, and the sizes of the programs' state tables (hook VerifStateCounts / VerifOpenedFilesPoolCounts: clients, sessions, owners, open/lock records, share, lock and hold counts, busy slots); a side effect that changes none of these (e.g. a sequence number moving inside a record) is only detected by its consequences for later in-order requests")
 	r.Assume("retransmissions with different content are only required to be refused where RFC 7530 9.1.9 / RFC 8881 2.10.6.1.3.1 let the server notice: other operation type or other state ID at the same owner seqid (4.0), other operation list shape on the same slot and sequence (4.1); an OPEN retransmitted with e.g. another file name at the same seqid is answered from the cache by design and is not probed")
 	r.Assume("a misordered or false-retry request only has to be rejected (any error status), must not be answered with the cached reply and must leave the fingerprint unchanged; the exact error code is recorded, not demanded")
+	r.Assume("a CREATE_SESSION answered NFS4ERR_DELAY was not executed and nothing is cached for it: its retransmission must be executed (NFS4ERR_DELAY again, or a new session once the old incarnation is idle, within 3 attempts); any other reply is the reply of another sequence ID")
 	r.Assume("hang verdicts are decided logically: the original has returned, the duplicate's goroutine is blocked on a channel inside /repo in three successive dumps and no other goroutine is inside /repo; wall time only paces the polling")
 	r.Assume("virtual clock advances by at most a few seconds per case, far below the 2 minute lease: lease expiry during retransmission is left to C18")
 
